@@ -58,12 +58,14 @@ impl SwiftField for Field11R {
         remaining = &remaining[6..];
 
         // Parse date
-        let year = 2000
-            + date_str[0..2]
-                .parse::<i32>()
-                .map_err(|_| ParseError::InvalidFormat {
-                    message: "Invalid year in Field 11R".to_string(),
-                })?;
+        // Same century window as every other date field (swift_utils::parse_date_yymmdd):
+        // 00-49 -> 2000-2049, 50-99 -> 1950-1999
+        let yy = date_str[0..2]
+            .parse::<i32>()
+            .map_err(|_| ParseError::InvalidFormat {
+                message: "Invalid year in Field 11R".to_string(),
+            })?;
+        let year = if yy <= 49 { 2000 + yy } else { 1900 + yy };
         let month = date_str[2..4]
             .parse::<u32>()
             .map_err(|_| ParseError::InvalidFormat {
@@ -203,12 +205,14 @@ impl SwiftField for Field11S {
         remaining = &remaining[6..];
 
         // Parse date
-        let year = 2000
-            + date_str[0..2]
-                .parse::<i32>()
-                .map_err(|_| ParseError::InvalidFormat {
-                    message: "Invalid year in Field 11S".to_string(),
-                })?;
+        // Same century window as every other date field (swift_utils::parse_date_yymmdd):
+        // 00-49 -> 2000-2049, 50-99 -> 1950-1999
+        let yy = date_str[0..2]
+            .parse::<i32>()
+            .map_err(|_| ParseError::InvalidFormat {
+                message: "Invalid year in Field 11S".to_string(),
+            })?;
+        let year = if yy <= 49 { 2000 + yy } else { 1900 + yy };
         let month = date_str[2..4]
             .parse::<u32>()
             .map_err(|_| ParseError::InvalidFormat {
@@ -405,12 +409,14 @@ impl SwiftField for Field11 {
         let date_str = parse_swift_digits(&input[3..9], "Field 11 date")?;
 
         // Parse date
-        let year = 2000
-            + date_str[0..2]
-                .parse::<i32>()
-                .map_err(|_| ParseError::InvalidFormat {
-                    message: "Invalid year in Field 11".to_string(),
-                })?;
+        // Same century window as every other date field (swift_utils::parse_date_yymmdd):
+        // 00-49 -> 2000-2049, 50-99 -> 1950-1999
+        let yy = date_str[0..2]
+            .parse::<i32>()
+            .map_err(|_| ParseError::InvalidFormat {
+                message: "Invalid year in Field 11".to_string(),
+            })?;
+        let year = if yy <= 49 { 2000 + yy } else { 1900 + yy };
         let month = date_str[2..4]
             .parse::<u32>()
             .map_err(|_| ParseError::InvalidFormat {
